@@ -184,6 +184,53 @@ func runC13(c *fw.Ctx) {
 			}
 			c.Count("post_rollback_gc_checks", 1)
 		}
+		// retry: apply the rolled-back batch again (same resulting content), commit and roll back once more; the second
+		// rollback must again leave nothing behind and keep the checkpoint
+		if r.Intn(3) == 0 {
+			target := m.Copy() // content the rolled-back commit had produced
+			m = cm.Copy()
+			c.Tracef("retry the rolled-back batch")
+			t.SaveRoot()
+			for _, k := range cm.Keys() {
+				if _, ok := target[k]; !ok {
+					if err := t.Update([]byte(k), nil, 0); err != nil {
+						fail("", "retry: delete failed: %v", err)
+						return
+					}
+				}
+			}
+			for _, k := range target.Keys() {
+				if e, ok := cm[k]; !ok || string(e.Val) != string(target[k].Val) {
+					if err := t.Update([]byte(k), target[k].Val, target[k].W); err != nil {
+						fail("", "retry: update failed: %v", err)
+						return
+					}
+				}
+			}
+			m = target
+			if !commit(lvl) {
+				return
+			}
+			c.Tracef("Rollback() of the retried batch")
+			if via == "RollbackTrie" && cw > 0 {
+				t.RollbackTrie(wmpt.NewHashNode(croot, cw))
+			} else if via == "RollbackTrie" {
+				t.RollbackTrie(nil)
+			} else {
+				t.Rollback()
+			}
+			if !check("after rolling back the retried batch") {
+				return
+			}
+			s3 := st.KeySet()
+			for k := range s3 {
+				if !s0[k] && !s2[k] {
+					fail("", "after rolling back the retried batch a node created only by the rolled-back commits is still in storage (%x)", k)
+					return
+				}
+			}
+			c.Count("retried_batches_rolled_back", 1)
+		}
 		// the rolled-back trie must stay usable: continue from the checkpoint with new changes, commit, check, reopen
 		m = cm.Copy()
 		if r.Intn(2) == 0 || cycle+1 < ncycles {
@@ -214,7 +261,7 @@ func init() {
 		Level: "exploration",
 		Rule: "each case: build and commit a checkpoint state at a collapse level 0..5 (1 in 12 with an empty checkpoint; optionally one GC pass), SaveRoot, then 1..8 changes (new keys, changed values, unchanged re-writes, delete-and-re-add of identical content, deletes), " +
 			"commit at the same level, optionally one GC pass, then Rollback() or RollbackTrie(checkpoint hash node). Oracle: Root()/Weight() equal the checkpoint's; the full observational check (every block's owner, value, verifying proof; every canonical node present) passes on the live trie and on a trie reopened " +
-			"from the checkpoint root; with S0/S1/S2 the storage key sets at checkpoint / after the commit / after rollback, (S1 \\ S0) ∩ S2 is empty; a quarter of the quick cases and all thorough cases add two GC passes after the rollback and repeat the checks; then the history continues from the rolled-back trie (new changes, commit, full check, reopen), and half of the histories run a second checkpoint/commit/rollback cycle. distinct non-trivial = distinct traces",
+			"from the checkpoint root; with S0/S1/S2 the storage key sets at checkpoint / after the commit / after rollback, (S1 \\ S0) ∩ S2 is empty; a quarter of the quick cases and all thorough cases add two GC passes after the rollback and repeat the checks; a third of the histories then apply the same batch again, commit and roll back a second time (nothing of either commit may remain); then the history continues from the rolled-back trie (new changes, commit, full check, reopen), and half of the histories run a second checkpoint/commit/rollback cycle. distinct non-trivial = distinct traces",
 		Cases: func(tier string) int {
 			if tier == "thorough" {
 				return 400000
@@ -223,7 +270,7 @@ func init() {
 		},
 		Run: runC13,
 		Floors: map[string]int64{"rollbacks": 20000, "rollback_via:Rollback": 8000, "rollback_via:RollbackTrie": 8000, "gc_between_commit_and_rollback": 8000, "change:unchanged-rewrite": 3000, "change:del-readd-identical": 3000,
-			"change:new": 20000, "change:deleted": 5000, "post_rollback_gc_checks": 4000, "commits_after_rollback": 10000},
+			"change:new": 20000, "change:deleted": 5000, "post_rollback_gc_checks": 4000, "commits_after_rollback": 10000, "retried_batches_rolled_back": 4000},
 		Assumptions: []string{"at most one GC pass between the commit and the rollback (the property's domain)"},
 	})
 }
